@@ -144,3 +144,19 @@ CHECKS["C12"] = checks_wire.run_c12
 CHECKS["C19"] = checks_wire.run_c19
 REPLAY["C12"] = replay_wire
 REPLAY["C19"] = replay_wire
+
+
+def replay_c09(prop, path):
+    import checks_wire
+    r = json.load(open(path))
+    got, _ = checks_wire.confirm_fn(build_vh(), "TraceMapper.tla")(r["case"])
+    if got:
+        print("VIOLATION property=%s replay=%s" % (prop, path))
+        print("  " + json.dumps(got[0])[:600])
+        return 1
+    print("replay: the recorded mismatch does not occur on this tree")
+    return 0
+
+
+CHECKS["C09"] = checks_wire.run_c09
+REPLAY["C09"] = replay_c09
